@@ -524,8 +524,15 @@ impl Datamodel for NullDatamodel {
     }
 
     #[allow(non_snake_case)]
-    fn executeContent(&mut self, _fsm: &Fsm, _content_id: ExecutableContentId) -> bool {
-        // Nothing
+    fn executeContent(&mut self, fsm: &Fsm, content_id: ExecutableContentId) -> bool {
+        // There is no scripting, but elements like <raise>, <send> or <if cond="In(..)"> are still executable.
+        if let Some(ec) = fsm.executableContent.get(&content_id) {
+            for e in ec.iter() {
+                if !e.execute(self, fsm) {
+                    return false;
+                }
+            }
+        }
         true
     }
 }
